@@ -4,7 +4,8 @@
 \* valid, bounded-wait history).  `last` is the label of the transition (requests applied and the
 \* ports visible while they were applied); it is hidden from the fingerprint by the VIEWs.
 \* Two configurations are run on this module:
-\*   full  : VIEW ViewFull  (state incl. wait history)  INVARIANT Inv  PROPERTIES StepOK ServedInTime
+\*   full  : VIEW ViewFull  (state incl. wait history, up to rotation; ViewPlain = without the
+\*           reduction)  INVARIANT Inv  PROPERTIES StepOK ServedInTime
 \*   edges : VIEW ViewEdge  (component state only) + ACTION_CONSTRAINT Emit -> one EDGE line per
 \*           transition of the component automaton (for the spec->code replay).
 EXTENDS Naturals, Sequences, FiniteSets, TLC, Json, IOUtils
@@ -24,7 +25,14 @@ Cycle(R) ==
 Next == \E R \in C!ReqSets(cfg) : Cycle(R)
 Spec == Init /\ [][Next]_vars
 
-ViewFull == <<cfg, st, wait>>
+\* The arbiters are invariant under rotation of the input indices (RRPick only looks at positions
+\* relative to the pointer; all checked properties are rotation invariant), so states are identified
+\* up to rotation: the wait history is indexed relative to the pointer.  (Reset pointer = index 0.)
+ViewFull ==
+  IF Cardinality(st.g) # 1 THEN <<cfg, st, wait>>
+  ELSE LET p == CHOOSE i \in st.g : TRUE
+       IN <<cfg, st.v, [d \in 0..(cfg.count - 1) |-> wait[(p + d) % cfg.count]]>>
+ViewPlain == <<cfg, st, wait>>      \* no symmetry reduction (thorough tier runs both)
 ViewEdge == <<cfg, st>>
 
 Inv == C!TypeOK(cfg, st) /\ C!BoundedWait(cfg, wait)
